@@ -90,7 +90,8 @@ Proof.
   intros Hinv0.
   assert (Hl : forall k q, lookup (b_services b) k = Some q -> good_queue q) by (intros k q; apply (inv_lookup b k q Hinv0)).
   destruct Hinv0 as [Hinv _]. fold gq in Hinv.
-  destruct a as [c|k c flags|k c flags|k c flags|k flags|k c|k|k|c r|c r|p|p]; simpl.
+  destruct a as [|c|k c flags|k c flags|k c flags|k flags|k c|k|k|c r|c r|p|p]; simpl.
+  - intros H; inversion H; subst; exact Hinv.
   - intros H; inversion H; subst; exact Hinv.
   - destruct (lookup (b_services b) k); [discriminate|]. intros H; inversion H; subst; simpl.
     apply Forall_app; split; [exact Hinv|]. constructor; [|constructor]. unfold gq; simpl.
@@ -157,7 +158,8 @@ Qed.
 Lemma do_action_keys a b b' hs : inv b -> do_action a b = Some (b', hs) -> NoDup (map fst (b_services b')).
 Proof.
   intros [_ Hk].
-  destruct a as [c|k c flags|k c flags|k c flags|k flags|k c|k|k|c r|c r|p|p]; simpl.
+  destruct a as [|c|k c flags|k c flags|k c flags|k flags|k c|k|k|c r|c r|p|p]; simpl.
+  - intros H; inversion H; subst; exact Hk.
   - intros H; inversion H; subst; exact Hk.
   - destruct (lookup (b_services b) k) eqn:El; [discriminate|]. intros H; inversion H; subst; simpl.
     rewrite map_app. simpl. apply (Permutation_NoDup (l := k :: map fst (b_services b))); [apply Permutation_cons_append|].
